@@ -183,7 +183,7 @@ def run(tier, seed):
                                     theorem=pg['theorems'], problems=pg['problems']), False))
     ncases = 60 if tier == 'quick' else 800
     cases = [seed * 100000 + 9000 + i for i in range(ncases)]
-    for r in core.run_cases(run_case, cases):
+    for r in core.run_cases(run_case, core.with_corpus(PID, cases)):
         rep.merge(r)
     rep.obligation('correspondence: Pestle.Pestle.volume_integral (per level, per box exact sums) = per-box worker results and total of '
                    'pestle.volume_integral', not any(v[0].get('kind') == 'model-vs-impl' for v in rep.violations))
